@@ -30,6 +30,15 @@ def main():
     count = [0]
     SANDBOX = os.path.dirname(os.path.abspath(spec["metafile"]))
 
+    if spec.get("warmup"):
+        # an earlier, successful and fault-free edit of ANOTHER metafile in this process (before
+        # any fault is armed): what follows must not inherit anything from it
+        import shutil as _sh
+        twin = os.path.join(SANDBOX, "warmup-" + os.path.basename(spec["metafile"]))
+        _sh.copy(spec["metafile"], twin)
+        impl.edit(twin, {"comment": "warm-up"})
+        os.remove(twin)
+
     def on_event(tracer, rec):
         if rec[0] in ("chmod", "utime"):
             return
@@ -72,6 +81,48 @@ def main():
             left[0] = -1
             return real_write(fd, bytes(data)[:n])
         os.write = short_write
+    if mode == "raise-close":
+        # a buffered writer: write() only fills the buffer, the data reach the disk when the file
+        # is closed - and that is where "no space left" strikes (after `prefix` bytes)
+        real_open0 = open
+
+        class Buffered:
+            def __init__(self, fd):
+                self.fd, self.buf = fd, b""
+
+            def __enter__(self):
+                return self
+
+            def write(self, data):
+                self.buf += bytes(data)
+                return len(data)
+
+            def flush(self):
+                self.close()
+
+            def fileno(self):
+                return self.fd.fileno()
+
+            def close(self):
+                if self.fd.closed:
+                    return
+                self.fd.write(self.buf[:prefix])
+                self.fd.flush()
+                self.fd.close()
+                raise err
+
+            def __exit__(self, *a):
+                self.close()
+                return False
+
+        def buffered_open(path, flags="r", *a, **kw):
+            fd = real_open0(path, flags, *a, **kw)
+            writing = isinstance(flags, str) and any(c in flags for c in "wa+x")
+            inside = isinstance(path, (str, bytes, os.PathLike)) and \
+                os.path.abspath(os.fspath(path)).startswith(SANDBOX)
+            return Buffered(fd) if writing and inside else fd
+        import builtins
+        builtins.open = buffered_open
     if mode in ("kill-write", "raise-write"):
         real_open = open
 
